@@ -1140,6 +1140,9 @@ def check_enumeration(chk, desc, oracle, locale, mb, fs, built, enum, pf, p):
         return
     entries = enum[1]
     keys = [e[0] for e in entries]
+    if any(not isinstance(k, str) for k in keys):
+        chk.fail(sig + "yielded-without-l10n-path", desc, [list(map(str, e)) for e in entries][:3])
+        return
     if keys != sorted(keys) or len(set(keys)) != len(keys):
         chk.fail(sig + "not-sorted-or-duplicate", desc, keys)
         return
